@@ -43,9 +43,12 @@ def goTok : PTree → Option GoTok
   | .null => some .null
   | _ => none
 
-/-- `property.CreateField()`'s flag check -/
-def createField (p : PropDef) (st : PS) : Outcome PS :=
+/-- `property.CreateField()`: the `hasValue` flag check, then `buildValue(create = true)`'s check
+that no other member of the final field's proto oneof is set (25c97b7). The remaining checks of
+`buildValue` / `buildProperty` (empty path, item schema) follow at the call sites, in Go's order. -/
+def createField (props : List PropDef) (p : PropDef) (st : PS) : Outcome PS :=
   if st.seen.contains p.jsonName then .err "already set"
+  else if groupBusy props p st.m then .err "another member of the proto oneof is already set"
   else .ok { st with seen := p.jsonName :: st.seen }
 
 /-- `expectDelim(closer)` after a member / element loop -/
@@ -73,7 +76,7 @@ def touchProp (props : List PropDef) (p : PropDef) (m : Fields) : Fields :=
 
 /-- the oneof post-checks of `decodeOneofInner` (after the member loop); `some p` = the arm that
 `"!type"` alone selected (`oneof.NewValue`) -/
-def oneofPost (ops : List PropDef) (found : List Bytes) (ct : Option Bytes) :
+def oneofPost (ops : List PropDef) (found : List Bytes) (ct : Option Bytes) (m : Fields) :
     Outcome (Option PropDef) :=
   match found with
   | [] =>
@@ -86,7 +89,9 @@ def oneofPost (ops : List PropDef) (found : List Bytes) (ct : Option Bytes) :
         match p.path, p.field with
         | [], .oneof _ => .ok none
         | [], _ => .err "no such key"
-        | _, _ => .ok (some p)
+        | _, _ =>
+          -- `oneof.NewValue` → `buildValue(create = true)`: the proto-oneof check (25c97b7)
+          if groupBusy ops p m then .err "no such key" else .ok (some p)
   | [k] =>
     match ct with
     | some name => if k = name then .ok none else .err "key does not match type"
@@ -131,7 +136,7 @@ def finishOneof (ops : List PropDef)
   match r with
   | .ok (r, found, ct, term) =>
     if term == .errIn then .err "token" else
-    match oneofPost ops found ct with
+    match oneofPost ops found ct r.m with
     | .ok tp => if closeOk term then .ok (applyPost ops tp r.m) else .err "token"
     | .err e => .err e
     | .panic w => .panic w
@@ -150,7 +155,7 @@ def decScalarProp (c : Cfg) (props : List PropDef) (p : PropDef) (k : ScalarKind
   | .raw _ => .err "token"
   | .null => .ok st
   | _ =>
-    (createField p st).bind fun st1 =>
+    (createField props p st).bind fun st1 =>
       if p.path.isEmpty then .err pathErr else
       match goTok t with
       | none => .err "unexpected token, expected scalar"
@@ -165,7 +170,7 @@ def decEnumProp (c : Cfg) (props : List PropDef) (p : PropDef) (ref : String) (t
   | .raw _ => .err "token"
   | .null => .ok st
   | _ =>
-    (createField p st).bind fun st1 =>
+    (createField props p st).bind fun st1 =>
       if p.path.isEmpty then .err pathErr else
       match t, c.env.find ref with
       | .str s _, some (.enum pfx opts) =>
@@ -193,7 +198,7 @@ def finishOneofProp (ops props : List PropDef) (p : PropDef) (st1 : PS)
     (r : Outcome (PS × List Bytes × Option Bytes × Term)) : Outcome PS :=
   r.bind fun (r, found, ct, term) =>
     if term == .errIn then .err "token" else
-    (oneofPost ops found ct).bind fun tp =>
+    (oneofPost ops found ct r.m).bind fun tp =>
       if closeOk term then
         let rm := applyPost ops tp r.m
         .ok { st1 with m := if p.path.isEmpty then rm else updPath props p (some (.msg rm)) st1.m }
@@ -266,7 +271,7 @@ def decProp (c : Cfg) (props : List PropDef) (p : PropDef) (t : PTree) (st : PS)
     match t with
     | .null => .ok st
     | .obj ms =>
-      (createField p st).bind fun st1 =>
+      (createField props p st).bind fun st1 =>
         if p.path.isEmpty then .err pathErr else
         match c.env.find ref with
         | some (.object sub) => finishObjectProp props p st1 (decObjMembers c sub ms (subStart p st1))
@@ -277,7 +282,7 @@ def decProp (c : Cfg) (props : List PropDef) (p : PropDef) (t : PTree) (st : PS)
     match t with
     | .null => .ok st
     | .obj ms =>
-      (createField p st).bind fun st1 =>
+      (createField props p st).bind fun st1 =>
         match c.env.find ref with
         | some (.oneof ops) =>
           finishOneofProp ops props p st1 (decOneofMembers c ops ms (oneofStart p st1) [] none)
@@ -288,7 +293,7 @@ def decProp (c : Cfg) (props : List PropDef) (p : PropDef) (t : PTree) (st : PS)
     match t with
     | .null => .ok st
     | .obj ms =>
-      (createField p st).bind fun st1 =>
+      (createField props p st).bind fun st1 =>
         if p.path.isEmpty then .err pathErr else
         finishAnyProp c props p pb st1 (decAnyMembers c (finalType ms none) ms {})
     | _ => .err "unexpected token, expected {"
@@ -297,7 +302,7 @@ def decProp (c : Cfg) (props : List PropDef) (p : PropDef) (t : PTree) (st : PS)
     match t with
     | .null => .ok st
     | .arr xs =>
-      (createField p st).bind fun st1 =>
+      (createField props p st).bind fun st1 =>
         if p.path.isEmpty then .err pathErr else
         (itemCheck item).bind fun _ =>
           finishArrayProp props p st1 (decElems c item xs (listStart p st1))
@@ -307,7 +312,7 @@ def decProp (c : Cfg) (props : List PropDef) (p : PropDef) (t : PTree) (st : PS)
     match t with
     | .null => .ok st
     | .obj ms =>
-      (createField p st).bind fun st1 =>
+      (createField props p st).bind fun st1 =>
         if p.path.isEmpty then .err pathErr else
         (itemCheck item).bind fun _ =>
           finishMapProp props p st1 (decMapMembers c item ms (mapStart p st1))
